@@ -13,6 +13,26 @@ checks = []
 for pid in registry.PROPS:
     prop = importlib.import_module("p_" + pid.lower()).PROP
     m = prop.manifest
+    # source tie through the fragment translator (tools/rs2v.py -> coq/gen/Frag.v): which pinned
+    # theorems of the property file relate the model to translated code, and which fragments
+    import re as _re
+    _src = open(os.path.join(ROOT, "coq", getattr(prop, "prop_file", "prop/%s.v" % pid))).read()
+    _ties = []
+    _frs = set()
+    for _mm in _re.finditer(r"Theorem\s+(\w+)\s*:(.*?)\nProof\.", _src, _re.S):
+        _f = set(_re.findall(r"Frag\.(\w+)", _mm.group(2)))
+        if _f:
+            _ties.append(_mm.group(1))
+            _frs |= _f
+    tie_note = ""
+    tie_tech = ""
+    if _ties:
+        tie_note = (" Source tie: tools/rs2v.py translates the Rust functions / anchored expressions behind %s from the "
+                    "working tree into coq/gen/Frag.v on every run; the pinned theorems %s prove, for all arguments, that "
+                    "the model's operations are that translated code, so an edit of those functions breaks a proof "
+                    "obligation even on inputs no generated case reaches (trusted: the translator and the 20-line "
+                    "semantics file coq/model/RsSem.v)." % (", ".join("Frag." + x for x in sorted(_frs)), ", ".join(_ties)))
+        tie_tech = " + source-translated fragments (rs2v) proved equal to the model"
     checks.append({
         "property_id": pid,
         "quick_cmd": "./check %s --tier quick" % pid,
@@ -21,8 +41,8 @@ for pid in registry.PROPS:
         "replay_cmd_template": "./check %s --replay {path}" % pid,
         "engine": m.get("engine", "coq+correspondence"),
         "level_claimed": {"category": "proof", "text": m["text"], "design_ref": "DESIGN.md §5 " + pid},
-        "level_note": m["note"],
-        "technique": m["technique"],
+        "level_note": m["note"] + tie_note,
+        "technique": m["technique"] + tie_tech,
     })
 na = getattr(registry, "NOT_APPLICABLE", [])
 man = {
@@ -37,7 +57,7 @@ man = {
     },
     "engines": [
         {"name": "coq", "path": "coq/", "serves_properties": registry.PROPS,
-         "kind_free_text": "Coq 8.16.1 development: executable Gallina models (coq/model), theorems (coq/thm), pinned property statements (coq/prop), constants regenerated from the Rust source (coq/gen)"},
+         "kind_free_text": "Coq 8.16.1 development: executable Gallina models (coq/model), theorems (coq/thm), pinned property statements (coq/prop), constants (tools/consts.py -> coq/gen/Consts.v) and small function bodies / anchored expressions (tools/rs2v.py -> coq/gen/Frag.v) regenerated from the Rust source on every run"},
         {"name": "correspondence", "path": "tools/diffcheck.py", "serves_properties": registry.PROPS,
          "kind_free_text": "checked tie to the code: extracted model (OCaml, ExtrOcamlBasic) vs Rust harness (harness/) on the same integer-encoded cases, or acceptance of hook-recorded histories by the extracted LTS, plus an independent property oracle"},
     ],
